@@ -17,10 +17,14 @@
        stated against the grammar, for any filter.
    The machine keeps open values on an explicit list (the model's stack), not
    on the call stack; real stack use is measured by c10.deep / c01.deep.
-   By streams only: skip_all's loop as a whole (it is skip_one iterated),
-   filters that reject in the middle of a value. *)
+     C10_skip_all_definite / C10_skip_all_top / C10_skip_all_sound - skip_all
+       as a whole: over a grammar string of values it skips all of them,
+       counts them and stops at the end of the enclosing definite value or of
+       the top-level input; and whatever it accepts was such a string - so
+       skip_all succeeds exactly where reading everything does (C02).
+   By streams only: filters that reject in the middle of a value. *)
 Require Import BV.Model.Base BV.Model.SrcB BV.Model.Length BV.Model.Tag BV.Model.Content.
-Require Import BV.Proofs.SrcBP BV.Proofs.TagP BV.Proofs.ContentP BV.Proofs.GrammarP BV.Proofs.SkipP.
+Require Import BV.Proofs.SrcBP BV.Proofs.TagP BV.Proofs.ContentP BV.Proofs.GrammarP BV.Proofs.SkipP BV.Proofs.CaptureP BV.Proofs.SkipAllP.
 
 Theorem C10_skip_then_read : forall fuel c fl s c' tr s',
   nf s -> octets_ok (rem s) = true -> may_start c (lim s) ->
@@ -90,6 +94,32 @@ Example C10_ex_rejects :
   fst (skip_opt 40 (mkCons Unbounded Der) accept_all (pure_src [48; 128; 0; 0] None)) = CErr.
 Proof. repeat split; vm_compute; reflexivity. Qed.
 
+(* skip_all as a whole *)
+Theorem C10_skip_all_definite : forall m ts ds, encs m ts ds ->
+  forall fuel c n rest, cmd c = m -> cst c = Definite -> (2 * length ds + length ts < fuel)%nat ->
+    octets_ok (ds ++ rest) = true ->
+    skip_all fuel c n (mkSrc (ds ++ rest) (Some (len ds)) None)
+    = (Ok (n + len ts, c), mkSrc rest (Some 0) None).
+Proof. exact skip_all_complete_def. Qed.
+
+Theorem C10_skip_all_top : forall m ts ds, encs m ts ds ->
+  forall fuel c n, cmd c = m -> cst c = Unbounded -> (2 * length ds + length ts < fuel)%nat ->
+    octets_ok ds = true ->
+    skip_all fuel c n (mkSrc ds None None) = (Ok (n + len ts, c), mkSrc [] None None).
+Proof. exact skip_all_complete_top. Qed.
+
+Theorem C10_skip_all_sound : forall fuel c n s k c' s', nf s -> octets_ok (rem s) = true ->
+  skip_all fuel c n s = (Ok (k, c'), s') ->
+  nf s' /\ exists ts ds, encs (cmd c) ts ds /\
+    match cst c with
+    | Indefinite => exists lw0, rem s = ds ++ 0 :: lw0 ++ rem s' /\ lenoct (cmd c) 0 lw0
+    | _ => rem s = ds ++ rem s'
+    end.
+Proof. exact skip_all_sound. Qed.
+
+Print Assumptions C10_skip_all_definite.
+Print Assumptions C10_skip_all_top.
+Print Assumptions C10_skip_all_sound.
 Print Assumptions C10_skip_then_read.
 Print Assumptions C10_read_then_skip.
 Print Assumptions C10_absent_like_read.
